@@ -6,10 +6,12 @@ import common
 import rfigc_util as ru
 from common import hx
 
-LEAN_MODULES = ["Pff.Props.C16"]
+LEAN_MODULES = ["Pff.Props.C16", "Pff.Props.Csv"]
 PROP_MODULE = "Pff.Props.C16"
 THEOREMS = ["Pff.Rfigc.C16_remove_only_missing", "Pff.Rfigc.C16_append_once", "Pff.Rfigc.C16_initial_consistent",
-            "Pff.Rfigc.C16_converge", "Pff.Rfigc.C16_stale_witness"]
+            "Pff.Rfigc.C16_converge", "Pff.Rfigc.C16_stale_witness",
+            "Pff.Csv.C05_csv_roundtrip",
+            "Pff.Csv.C16_csv_append"]
 MODELLED = [("pyFileFixity/rfigc.py", "main"), ("pyFileFixity/lib/_compat.py", "_csv_writer")]
 TRUSTED_BASE = [
     "Lean 4.33.0 kernel; axioms per theorem under coverage.theorems (subset of propext, Classical.choice, Quot.sound)",
